@@ -328,7 +328,7 @@ func runC08(c *Ctx) {
 	}
 
 	// ---------- R08.4 field confinement
-	c.Rule("R08.4", "E5", "StateAdapter.OwnedState only inside controllerstate (+constructors); Inputs/Outputs written only by constructors and UpdateInputs", 3)
+	c.Rule("R08.4", "E5", "StateAdapter.OwnedState only inside controllerstate (+constructors); Inputs/Outputs written only by constructors and UpdateInputs; UpdateInputs succeeds only after the access set was replaced", 5)
 
 	accessOK := map[string]int{}
 
@@ -394,6 +394,16 @@ func runC08(c *Ctx) {
 		}
 	}
 
+	// declared access set and dependency database change together: UpdateInputs succeeds only after adapter.Inputs := clone(deps)
+	if ui := p.Method(pkgRRuntime, "Adapter", "UpdateInputs"); c.NeedFunc("R08.4", ui, pkgRRuntime+".Adapter.UpdateInputs") {
+		setInputs := func(in ssa.Instruction) bool {
+			return StoreToField("StateAdapter", "Inputs")(in) && Glob("call:slices.Clone(param#1)", p.Desc(in.(*ssa.Store).Val))
+		}
+		c.MustCut("R08.4", "return nil ⊣ {adapter.Inputs = slices.Clone(deps)}", ui, ReturnsNilConst(0), CutSpec{Nodes: setInputs}, 1)
+		// ... and only after the merge loop over declared vs registered inputs ran to completion
+		c.MustCut("R08.4", "adapter.Inputs updated ⊣ {registered inputs fetched}", ui, setInputs, CutSpec{Edges: FactEdge("nil(call:(*" + "pkg/controller/runtime/internal/dependency" + ".Database).GetControllerInputs(*)#1)")}, 1)
+	}
+
 	// ---------- R08.5 owner injection
 	c.Rule("R08.5", "E3", "owned.State: every inner write carries an owner option derived only from st.owner / explicit no-owner / explicit owner; owned.New gets the controller name", 12)
 
@@ -443,6 +453,10 @@ func runC08(c *Ctx) {
 			c.Check(p.sliceContainsCall(last, ownerOpt[name], 0), "R08.5", FuncName(f)+" :: options passed to inner "+name+" contain the owner option", call.Pos(),
 				"yes", "the inner call's options do not derive from "+ownerOpt[name]+": "+p.Desc(last))
 		}
+	}
+
+	for _, m := range p.Methods(pkgOwned, "State") {
+		c.delegateOnce("R08.5", m, "(pkg/state.State)."+m.Name(), "(pkg/state.CoreState)."+m.Name())
 	}
 
 	for _, rel := range []string{pkgRRuntime, pkgQRuntime} {
